@@ -231,3 +231,109 @@ def random_cnf(rng, max_vars=8, max_clauses=12, allow_empty_clause=True,
     if not allow_empty_clause:
         clauses = [c for c in clauses if c]
     return n, clauses
+
+
+# ---------------------------------------------------------------------------
+# strict scanners for the other two output formats (used by C18)
+
+_OPB_HEAD = re.compile(r"^\* #variable= ([0-9]+) #constraint= ([0-9]+)$")
+_OPB_TERM = re.compile(r"^[+-]?[0-9]+$")
+_OPB_VAR = re.compile(r"^~?x([0-9]+)$")
+
+
+def scan_opb_output(text):
+    """(n, m, problems) for text produced by an OPB writer."""
+    problems = []
+    if text and not text.endswith("\n"):
+        problems.append("text does not end with a newline")
+    lines = text.split("\n")
+    if lines and lines[-1] == "":
+        lines = lines[:-1]
+    if not lines:
+        return None, None, ["empty output"]
+    mo = _OPB_HEAD.match(lines[0])
+    if not mo:
+        return None, None, ["first line is not '* #variable= n #constraint= "
+                            "m': %r" % lines[0][:80]]
+    n, m = int(mo.group(1)), int(mo.group(2))
+    cnt = 0
+    for k, line in enumerate(lines[1:], start=2):
+        if line.startswith("*"):
+            continue
+        toks = line.rstrip(";").split()
+        if len(toks) < 2 or toks[-2] not in (">=", "=") or \
+                not re.match(r"^-?[0-9]+$", toks[-1]) or \
+                (len(toks) - 2) % 2 != 0:
+            problems.append("line %d: not a constraint: %r" % (k, line[:80]))
+            continue
+        ok = True
+        for i in range(0, len(toks) - 2, 2):
+            mv = _OPB_VAR.match(toks[i + 1])
+            if not _OPB_TERM.match(toks[i]) or not mv or \
+                    not 1 <= int(mv.group(1)) <= n:
+                ok = False
+        if not ok:
+            problems.append("line %d: bad term in %r (n=%d)" %
+                            (k, line[:80], n))
+            continue
+        cnt += 1
+    if cnt != m:
+        problems.append("header says %d constraints, body has %d" % (m, cnt))
+    return n, m, problems
+
+
+def scan_latex_output(text):
+    """problems for a full LaTeX document produced by the writer."""
+    problems = []
+    if "\\documentclass" not in text:
+        problems.append("no \\documentclass")
+    if text.count("\\begin{document}") != 1:
+        problems.append("\\begin{document} occurs %d times" %
+                        text.count("\\begin{document}"))
+    if not text.rstrip().endswith("\\end{document}"):
+        problems.append("does not end with \\end{document}")
+    body = text.split("\\begin{document}")[-1]
+    depth = 0
+    pos = 0
+    nalign = 0
+    while True:
+        a = body.find("\\begin{align}", pos)
+        b = body.find("\\end{align}", pos)
+        if a == -1 and b == -1:
+            break
+        if a != -1 and (b == -1 or a < b):
+            depth += 1
+            nalign += 1
+            pos = a + 1
+            if depth > 1:
+                problems.append("nested align")
+                break
+        else:
+            depth -= 1
+            pos = b + 1
+            if depth < 0:
+                problems.append("\\end{align} without \\begin{align}")
+                break
+    if depth != 0 and not problems:
+        problems.append("unbalanced align environments")
+    if nalign == 0:
+        problems.append("no align environment")
+    return problems
+
+
+_CLAUSE_LINE = re.compile(r"^(-?[0-9]+ )*0$")
+_OPB_LINE = re.compile(r"^([+-]?[0-9]+ ~?x[0-9]+ )*(>=|=) -?[0-9]+ ?;?$")
+
+
+def formula_fragments(text):
+    """Lines of *text* that look like part of a formula in any format."""
+    out = []
+    for line in text.split("\n"):
+        s = line.strip()
+        if s.startswith("p cnf ") or s.startswith("* #variable=") or \
+                "\\begin{document}" in s or "\\begin{align}" in s or \
+                "\\documentclass" in s:
+            out.append(line)
+        elif s and (_CLAUSE_LINE.match(s) or _OPB_LINE.match(s)):
+            out.append(line)
+    return out
